@@ -13,7 +13,7 @@ VARIABLE l
 
 Trace == ndJsonDeserialize(TraceFile)
 
-TInit == l = 1 /\ inst = NoInst
+TInit == l = 1 /\ inst = NoInst /\ iters = NoIters
 
 Ev(name) == l <= Len(Trace) /\ Trace[l].ev = name /\ l' = l + 1
 
@@ -100,7 +100,7 @@ TLoad ==
      /\ Report(l, "P:C05:load", IF e.err # "" \/ e.pan # "" THEN {1} ELSE {})
      /\ IF e.err = "" /\ e.pan = "" THEN LoadOwn ELSE inst' = NoInst
 
-TNext == TNew \/ TTable \/ TTableErr \/ TStat \/ TObsK \/ TObsQ \/ TLoad
+TNext == UNCHANGED iters /\ (TNew \/ TTable \/ TTableErr \/ TStat \/ TObsK \/ TObsQ \/ TLoad)
 
 \* every line consumed: l - 1 = Len(Trace) in the last state
 Accepted == TLCGet("stats").diameter - 1 = Len(Trace)
